@@ -46,6 +46,15 @@ def gen(rng, tier):
     for m in ("BITCOIN", "BITCOIN_TESTNET") if tier == "quick" else ("BITCOIN", "BITCOIN_TESTNET", "BITCOIN_REGTEST"):
         for s in _taproot_leading_zero_seeds(rng, m, 1 if tier == "quick" else 6):
             yield Case("bip44", ["Bip86", m, "-", hx(s), "D"], "taproot-leading-zero")
+    yield from _ledger_cases(rng, tier)
+
+
+def _ledger_cases(rng, tier):
+    """output-dependent: seeds whose Ledger-style Cardano master key takes many links of the HMAC chain (every seed has a master key)"""
+    from harness.canon import kholaw_long_round_seeds
+    for t, s in kholaw_long_round_seeds(rng, (6, 9, 11) if tier == "quick" else (6, 9, 10, 11, 12, 13, 14), 12000 if tier == "quick" else 120000):
+        for fam, m in (("Bip44", "CARDANO_BYRON_LEDGER"), ("Cip1852", "CARDANO_LEDGER"), ("Cip1852", "CARDANO_LEDGER_TESTNET")):
+            yield Case("bip44", [fam, m, "-", hx(s), "D"], "ledger-master-links-%d" % t)
 
 
 def _taproot_leading_zero_seeds(rng, coin_member, want):
